@@ -315,6 +315,104 @@ def _case(tdk, sk):
         return rt.ok()
 
 
+PSH = ['dated-old', 'no-date-line', 'invalid-date', 'empty-file', 'dated-recent', 'dup-date-old-new', 'no-path-line', 'date-with-offset']
+PLACES2 = ['same-trash-dir', 'home-then-volume', 'two-explicit-trash-dirs']
+
+
+def _ptext(k, path_value):
+    s = PSH[k]
+    head = '[Trash Info]\nPath=%s\n' % path_value
+    if s == 'dated-old':
+        return head + 'DeletionDate=2000-01-01T00:00:00\n'
+    if s == 'no-date-line':
+        return head
+    if s == 'invalid-date':
+        return head + 'DeletionDate=2000-13-45T00:00:00\n'
+    if s == 'empty-file':
+        return ''
+    if s == 'dated-recent':
+        return head + 'DeletionDate=2020-06-15T00:00:00\n'
+    if s == 'dup-date-old-new':
+        return head + 'DeletionDate=2000-01-01T00:00:00\nDeletionDate=2020-06-15T00:00:00\n'
+    if s == 'no-path-line':
+        return '[Trash Info]\nDeletionDate=2000-01-01T00:00:00\n'
+    if s == 'date-with-offset':
+        return head + 'DeletionDate=2000-01-01T00:00:00+02:00\n'
+    raise ValueError(s)
+
+
+def _observe(entries, place):
+    """what the three readers make of a trash holding ``entries`` = [(name, shape)]: trash-list lines, trash-restore
+    offers, and which entries `trash-empty 1` purges"""
+    nodes = [W.d('/h'), W.d('/h/w'), W.d('/v/w'), W.f('/v/keep', 'KEEP', 0o644, 800)]
+    tds = {'same-trash-dir': ['/h/.local/share/Trash', '/h/.local/share/Trash'], 'home-then-volume': ['/h/.local/share/Trash', '/v/.Trash-1000'],
+           'two-explicit-trash-dirs': ['/v/t1', '/v/t2']}[PLACES2[place]]
+    extra = []
+    if PLACES2[place] == 'two-explicit-trash-dirs':
+        extra = ['--trash-dir', '/v/t1', '--trash-dir', '/v/t2']
+        nodes += [W.d('/v/t1/files', 0o700), W.d('/v/t1/info', 0o700), W.d('/v/t2/files', 0o700), W.d('/v/t2/info', 0o700)]
+    where = {}
+    for (name, k) in entries:
+        td = tds[0 if name == 'aa' else 1]
+        pv = ('/h/w/' + name) if td.startswith('/h') else ('w/' + name)
+        nodes += K.trashed(td, name, None, None, 'file', 2000 if name == 'aa' else 2040, raw_info=_ptext(k, pv))
+        where[name] = td
+    world = W.W(mounts=['/', '/v'], cwd='/', nodes=nodes)
+    e = scen.env()
+    out = {}
+    _, r = scen.run_model(world, [C('list', extra, e, cwd='/', now=NOW)])
+    if r[0]['exc']:
+        return None, 'list: ' + r[0]['exc']
+    out['list'] = sorted(K.lines(r[0]['out']))
+    out['list-err'] = sorted(ln for ln in K.lines(r[0]['err']))
+    rs = []
+    for td_arg in ([[]] if not extra else [['--trash-dir', '/v/t1'], ['--trash-dir', '/v/t2']]):
+        _, r = scen.run_model(world, [C('restore', td_arg + ['/'], e, stdin=[''], cwd='/', now=NOW)])
+        if r[0]['exc']:
+            return None, 'restore: ' + r[0]['exc']
+        rs += [(d, p_) for (_, d, p_) in K.restore_listing(r[0]['out'])]
+    out['restore'] = sorted(rs)
+    m, r = scen.run_model(world, [C('empty', extra + ['1'], e, cwd='/', now=NOW), {'snap': '/'}])
+    if r[0]['exc']:
+        return None, 'empty: ' + r[0]['exc']
+    out['purged'] = sorted(n for (n, _) in entries if scen.sub(r[1], where[n] + '/files/' + n) is None)
+    out['info-purged'] = sorted(n for (n, _) in entries if scen.sub(r[1], where[n] + '/info/' + n + '.trashinfo') is None)
+    return out, ''
+
+
+def _pair_case(ka, kb, place, order):
+    """two entries read in ONE run: what each command makes of an entry does not depend on the entry read before it"""
+    with rt.untraced():
+        rt.begin(('pair', PSH[ka], PSH[kb], PLACES2[place], order))
+        # (the model lists a directory in creation order: 'order' decides which of the two is read first)
+        ents = [('aa', ka), ('bb', kb)]
+        if order:
+            ents = [('bb', kb), ('aa', ka)]
+        both, err = _observe(ents, place)
+        if both is None:
+            return rt.fail('C20:traceback-reading-two-entries:%s+%s' % (PSH[ka], PSH[kb]), err)
+        oa, err_a = _observe([('aa', ka)], place)
+        ob, err_b = _observe([('bb', kb)], place)
+        if oa is None or ob is None:
+            return rt.ok()  # (a shape no reader accepts alone is C19's subject)
+        label = '%s-read-%s-%s:%s' % (PSH[kb] if not order else PSH[ka], 'after', PSH[ka] if not order else PSH[kb], PLACES2[place])
+        for key in ('list', 'restore', 'purged', 'info-purged'):
+            want = sorted(oa[key] + ob[key])
+            if both[key] != want:
+                return rt.fail('C20:reading-depends-on-the-entry-read-before:%s:%s' % (key, label),
+                               '%s of the two together: %r; of each alone: %r and %r' % (key, both[key], oa[key], ob[key]))
+        return rt.ok()
+
+
+def w_pairs(ka: int, kb: int, place: int, order: bool) -> str:
+    """
+    pre: PARTITION is None or ka == PARTITION
+    pre: 0 <= ka < 8 and 0 <= kb < 8 and 0 <= place < 3
+    post: _ == ''
+    """
+    return _pair_case(rt.sel(ka, 8), rt.sel(kb, 8), rt.sel(place, 3), rt.selb(order))
+
+
 def w_main(tdk: int, sk: int) -> str:
     """
     pre: 0 <= tdk < 6 and 0 <= sk < NSH
@@ -333,4 +431,9 @@ def obligations(tier):
         CH('W_dirkind_x_shape', MOD, 'w_main', timeout=600, engine='W', regime='selector',
            encodes=K.LIST_FUNCS + K.RESTORE_FUNCS + K.RM_FUNCS + K.EMPTY_FUNCS, stubs=K.STUBS,
            bounds='6 kinds of trash directory (incl. --trash-dir through a symlink on another volume) x 16 content shapes; per case 8 command runs'),
+        CH('W_two_entries_read_in_one_run', MOD, 'w_pairs', timeout=900, partitions=list(range(8)), engine='W', regime='selector',
+           encodes=K.LIST_FUNCS + K.RESTORE_FUNCS + K.EMPTY_FUNCS, stubs=K.STUBS,
+           bounds='two entries x 8 content shapes each (dated, no DeletionDate line, invalid date, empty file, duplicate dates, no Path line, date with offset) x 3 placements '
+                  '(one trash dir, home then volume, two --trash-dir) x either reading order; trash-list lines, trash-restore offers and the purge decision of trash-empty 1 '
+                  'for the two together equal those of each alone'),
     ]
